@@ -141,10 +141,15 @@ def gen_ops(rng: random.Random, n: int, names=NAMES, allow_iter: bool = True) ->
             e = pick_ent(m)
             if e is not None:
                 ops.append(('setdefault', m, e, _key(rng), rng.choice(names)))
-        elif r < 0.87:
+        elif r < 0.86:
             e = pick_ent(m)
             if e is not None:
                 ops.append(('update', m, e, _kvs(rng, names, 0, 3)))
+        elif r < 0.87:
+            # round 5: the deprecated `ent.keys = {...}` setter (clear_keys() + update()), an alternative entry point
+            e = pick_ent(m)
+            if e is not None:
+                ops.append(('keyset', m, e, _kvs(rng, names, 0, 3)))
         elif r < 0.90:
             e = pick_ent(m)
             if e is not None:
@@ -303,6 +308,17 @@ CORPUS = [
     [('new', 0, [('classname', 'a')]), ('adds', 0, [1], 'map')],
     [('new', 0, [('classname', 'a')]), ('new', 0, [('classname', 'Ab')]), ('adds', 0, [1, 2, 1], 'list'), ('rem', 0, 1, True)],
     [('new', 0, [('classname', 'a')]), ('adds', 0, [1], 'tuple'), ('adds', 0, [], 'gen')],
+    # round 5: entities that came in through the bulk form add_ents and are re-keyed / cleared afterwards (a membership
+    # flag kept by add_ent only would not know them); the `ent.keys = {...}` setter on an indexed entity, on the
+    # worldspawn (a re-class is refused half-way: ValueError after the clear), with another spelling of the keys
+    [('new', 0, [('classname', 'a'), ('targetname', 'Ab')]), ('adds', 0, [1], 'list'), ('set', 0, 1, 'classname', 'Ab'),
+     ('del', 0, 1, 'targetname'), ('clear', 0, 1)],
+    [('new', 0, [('classname', 'a')]), ('adds', 0, [1, 1], 'tuple'), ('rem', 0, 1, False), ('set', 0, 1, 'TargetName', 'a1'),
+     ('uniq', 0, 1, 'a')],
+    [('create', 0, 'Ab', [('targetname', 'aB')]), ('keyset', 0, 1, [('Classname', 'a'), ('TargetName', 'a1')])],
+    [('create', 0, 'Ab', [('targetname', 'aB')]), ('keyset', 0, 1, []), ('keyset', 0, 1, [('targetname', 'A')])],
+    [('set', 0, 0, 'targetname', 'a'), ('keyset', 0, 0, [('targetname', 'Ab'), ('classname', 'a'), ('x', 'a')])],
+    [('new', 0, [('classname', 'a'), ('targetname', 'a')]), ('keyset', 0, 1, [('classname', 'A')]), ('add', 0, 1)],
 ]
 
 
@@ -325,7 +341,7 @@ def search(ck: Ck) -> None:
             if op[0] == 'adds':
                 ck.hist('add_ents_iterable_form', op[3] if len(op) > 3 else 'gen')
         kinds = {op[0] for op in ops}
-        if kinds & {'create', 'add', 'adds', 'parse'} and kinds & {'set', 'del', 'dels', 'pop', 'popitem', 'update', 'clear', 'uniq', 'rem', 'iter'}:
+        if kinds & {'create', 'add', 'adds', 'parse'} and kinds & {'set', 'del', 'dels', 'pop', 'popitem', 'update', 'clear', 'keyset', 'uniq', 'rem', 'iter'}:
             ck.seen(('oracle', repr(ops)))
         p = first_problem(ops)
         if p is None:
@@ -372,11 +388,17 @@ Definition check_obs (st : mstate) (er : nat) (x : exp) : bool :=
   && forallb (fun p : str * list nat => eqb_ln (sorted_elems (ix_get (by_class st) p.1)) p.2) xbc
   && forallb (fun p : option str * list nat => eqb_ln (sorted_elems (ix_get (by_target st) p.1)) p.2) xbt.
 (* a case: steps with the map to observe and the expected observation; result = index of first disagreement *)
-Fixpoint first_bad (n : nat) (steps : list (wop * nat * exp)) (w : list mstate) : option nat :=
+(* one implementation step = one or more model operations; an error stops the rest (the exception propagates) *)
+Fixpoint wsteps (os : list wop) (w : list mstate) : list mstate * nat :=
+  match os with
+  | [] => (w, 0)
+  | o :: r => let '(w', er) := wstep cf o w in match er with 0 => wsteps r w' | _ => (w', er) end
+  end.
+Fixpoint first_bad (n : nat) (steps : list (list wop * nat * exp)) (w : list mstate) : option nat :=
   match steps with
   | [] => None
   | (o, m, x) :: r =>
-      let '(w', er) := wstep cf o w in
+      let '(w', er) := wsteps o w in
       match w' !! m with
       | Some st => if check_obs st er x then first_bad (S n) r w' else Some n
       | None => Some n
@@ -430,6 +452,14 @@ def _c_kvs(tab, kvs) -> str:
 
 def _c_nats(xs) -> str:
     return '[' + '; '.join(str(int(x)) if int(x) >= 0 else '999' for x in xs) + ']'   # -1 = object unknown to the history
+
+
+def coq_wops(tab, op) -> list[str]:
+    """The model operations of one implementation step (round 5: `ent.keys = kvs` is Clear then Update; an exception of
+    the first would stop the second — [wsteps] below)."""
+    if op[0] == 'keyset':
+        return [coq_wop(tab, ('clear', op[1], op[2])), coq_wop(tab, ('update', op[1], op[2], op[3]))]
+    return [coq_wop(tab, op)]
 
 
 def coq_wop(tab, op) -> str:
@@ -583,7 +613,7 @@ def corr(ck: Ck, escalate: bool = False, shapes: bool = False) -> None:
             ck.hist('corr_err', err)
             errs += err != 0
         kinds = {s[0][0] for s in steps}
-        if len(steps) >= 2 and kinds & {'set', 'del', 'dels', 'pop', 'popitem', 'update', 'clear', 'uniq', 'rem'}:
+        if len(steps) >= 2 and kinds & {'set', 'del', 'dels', 'pop', 'popitem', 'update', 'clear', 'keyset', 'uniq', 'rem'}:
             ck.seen(('corr', repr(ops)))
     ck.sample({'correspondence_ops': cases[len(CORPUS)][0][:6], 'impl_observation_after_last_step': cases[len(CORPUS)][1][-1][3] if cases[len(CORPUS)][1] else None})
     bad: list[tuple[int, Any]] = []
@@ -602,8 +632,10 @@ def corr(ck: Ck, escalate: bool = False, shapes: bool = False) -> None:
         ilits = []
         q2lits = []
         for ops, steps, queries, iters in part:
-            lits.append('[' + '; '.join(f'({coq_wop(tab, f)}, {m}, {coq_exp(tab, err, obs)})' for f, m, err, obs in steps) + ']')
-            flat_ops = '[' + '; '.join(coq_wop(tab, f) for f, _m, _e, _o in steps) + ']'
+            lits.append('[' + '; '.join(f'([{"; ".join(coq_wops(tab, f))}], {m}, {coq_exp(tab, err, obs)})' for f, m, err, obs in steps) + ']')
+            flat_ops = '[' + '; '.join(o for f, _m, _e, _o in steps for o in coq_wops(tab, f)) + ']'
+            # position of an implementation step in the list of model operations (a keyset step is two of them)
+            mpos = list(itertools.accumulate(len(coq_wops(tab, f)) for f, _m, _e, _o in steps))
             qs = ' && '.join(f'match w !! {m} with Some st => sq {_c_nats(r)} {_strtab(tab, q)} st | None => false end'
                              for m, q, r, _ in queries) or 'true'      # no queries: the history was cut short (exception / hang)
             if shapes:   # VMF.search as written (generated program over the defaultdict semantics), 5 of the queries
@@ -613,7 +645,7 @@ def corr(ck: Ck, escalate: bool = False, shapes: bool = False) -> None:
             qlits.append(f'(let w := wrun cf {flat_ops} w2 in {qs})')
             if iters:
                 chk = ' && '.join(
-                    f'iter_ok fl {pos} {m} {"true" if which == "class" else "false"} '
+                    f'iter_ok fl {mpos[pos] - 1} {m} {"true" if which == "class" else "false"} '
                     f'{_strtab(tab, key if which == "class" else "")} '
                     f'{("None" if key is None else "(Some " + _strtab(tab, key) + ")") if which == "target" else "None"} {_c_nats(ys)}'
                     for pos, m, which, key, ys in iters)
@@ -816,6 +848,8 @@ GLUE_OBLIGATIONS = {
     'make_unique_stores_names_through_setitem': 'mu_stores_through_setitem gen_make_unique',
     'popitem_setdefault_update_are_the_mutablemapping_mixins': 'gen_mixins_inherited',
     'getitem_never_raises_so_setdefault_stores_nothing': 'gen_getitem_never_raises',
+    # round 5: the deprecated `ent.keys = {...}` setter is clear_keys() (= clear) followed by update(<its argument>)
+    'keys_setter_is_clear_then_update': 'gen_keys_setter_is_clear_then_update',
 }
 # the instance of theorem c07_property: all generated objects together pass programs_ok
 PROGRAMS_EXPR = ('programs_ok (PG gen_setitem_shape gen_setitem_maint gen_delitem_maint gen_delitem_loop gen_clear gen_add_ent '
@@ -902,7 +936,7 @@ def run(ck: Ck) -> None:
     ck.rule = ('histories over 2-3 real VMF objects with at most 6 entities each; names drawn from '
                "{a, A, Ab, aB, '', a1, worldspawn} (15 % of the oracle histories and 20 % of the correspondence histories: ß/SS/ss/İ), keys from classname/targetname in "
                'three spellings plus two other keys; operations create/new/copy/add/adds (iterable passed as generator, iterator, map object, list or tuple)/remove/set/del/tuple-del/pop/'
-               'popitem/setdefault/update/clear/make_unique/export/parse/new map/defaultdict read of an index (folded or '
+               'popitem/setdefault/update/clear/the deprecated `ent.keys = {...}` setter/make_unique/export/parse/new map/defaultdict read of an index (folded or '
                'un-folded key)/iterate-while-mutating (loop bodies: set/del/remove/pop/clear/make_unique/create a like-named '
                'entity = late addition); a history is non-trivial when it adds an entity to a map and afterwards mutates keys '
                'or removes; distinct by full history')
@@ -1017,7 +1051,7 @@ def _op_from_json(o):
         return (k, o[1], [tuple(p) for p in o[2]])
     if k == 'create':
         return (k, o[1], o[2], [tuple(p) for p in o[3]])
-    if k == 'update':
+    if k in ('update', 'keyset'):
         return (k, o[1], o[2], [tuple(p) for p in o[3]])
     if k == 'parse':
         return (k, [tuple(p) for p in o[1]], [([tuple(p) for p in kv], h) for kv, h in o[2]])
